@@ -352,4 +352,5 @@ def main():
 
 
 if __name__ == "__main__":
-    main()
+    import common
+    common.run(main, PID)
